@@ -355,6 +355,31 @@ def check(prop, tier, replay_file=None):
                         known_hits.setdefault(hit["id"], [hit, 0])[1] += 1
                     else:
                         violations.append((nm, line, c))
+        # live traces depend on event delivery within the settling windows: a violation seen in live mode is only kept if the
+        # same scenario shows the same clause violated again in two more runs (a lost wake-up is deterministic, a late
+        # event is not); anything else is recorded as an observation
+        unreproduced_live = []
+        live_viol = sorted({nm for nm, line, c in violations if by_name[nm].get("live")})
+        if live_viol:
+            again = []
+            for nm in live_viol:
+                for r in (1, 2):
+                    again.append(dict(by_name[nm], name="%s-again%d" % (nm, r)))
+            infra2 = replay(bins, again, tracedir)
+            if infra2:
+                raise vlib.Inconclusive("infrastructure failures during replay:\n" + "\n".join(infra2[:10]))
+            per2 = validate(specdir, tracedir, [a["name"] for a in again])
+            keep = []
+            for nm, line, c in violations:
+                if not by_name[nm].get("live"):
+                    keep.append((nm, line, c))
+                    continue
+                ok = all(any(c in cs for _, cs in per2["%s-again%d" % (nm, r)]["viol"]) for r in (1, 2))
+                if ok:
+                    keep.append((nm, line, c))
+                else:
+                    unreproduced_live.append(dict(trace=nm, clause=c))
+            violations = keep
         for kid, (k, n) in sorted(known_hits.items()):
             print("KNOWN-FINDING: property=%s %s (%d traces)" % (prop, k["what"], n))
         reported = {}
@@ -389,6 +414,7 @@ def check(prop, tier, replay_file=None):
                 events_in_real_traces=event_stats(tracedir, names),
                 drift_traces=drift_traces, drift_by_step=drift_kinds, drift_samples=drift_samples,
                 unreproduced_model_counterexamples=unreproduced,
+                live_violations_not_reproduced=unreproduced_live,
                 known_findings={kid: n for kid, (k, n) in known_hits.items()},
                 exhaustive=all(r["complete"] for r in mc_results) if mc_results else False,
                 samples=[dict(name=s["name"], steps=s["steps"][:40]) for s in scenarios[:2]],
